@@ -394,7 +394,7 @@ func runC20(p *load.Program, r *core.Report) {
 	rule3 := "C20.K3 disabled-jobs-do-not-fire"
 	rule4 := "C20.K4 timer-rearmed"
 	rule5 := "C20.K5 spooled-once"
-	r.Floor(rule3, 3)
+	r.Floor(rule3, 4)
 	r.Floor(rule4, 1)
 	r.Floor(rule5, 2)
 	create := p.Func("node", "", "createCron")
@@ -470,10 +470,14 @@ func runC20(p *load.Program, r *core.Report) {
 			r.Bad(rule3, key, fn, p.Pos(cb.Pos()), inst, "the action is started without testing the job's disabled flag: a disabled or removed job that was already spooled still fires")
 		}
 	}
-	for _, name := range []string{"RemoveJob", "DisableJob"} {
+	for _, name := range []string{"RemoveJob", "DisableJob", "EnableJob"} {
 		f := p.Func("node", "cron", name)
 		key := "C20.K3|" + name
+		wantVal := name != "EnableJob"
 		inst := name + " marks the job disabled (so a copy already in the spool does not fire)"
+		if !wantVal {
+			inst = name + " clears the job's disabled flag before it is scheduled again"
+		}
 		if f == nil {
 			r.Unk(rule3, key, "", "", inst, "not found")
 			continue
@@ -486,15 +490,15 @@ func runC20(p *load.Program, r *core.Report) {
 			}
 			_, fl := fieldOwner(st.Addr)
 			b, okb := constBool(st.Val)
-			return fl == "disable" && okb && b
+			return fl == "disable" && okb && b == wantVal
 		}, func(in ssa.Instruction) bool {
 			ret, ok := in.(*ssa.Return)
 			return ok && errKind(ret.Results[errIdx]) == "nil"
 		})
 		if bad == nil {
-			r.OK(rule3, key, fname(f), p.Pos(f.Pos()), inst, "disable = true on every successful path")
+			r.OK(rule3, key, fname(f), p.Pos(f.Pos()), inst, fmt.Sprintf("disable = %v on every successful path", wantVal))
 		} else {
-			r.Bad(rule3, key, fname(f), p.Pos(f.Pos()), inst, "a successful return does not set the disabled flag")
+			r.Bad(rule3, key, fname(f), p.Pos(f.Pos()), inst, fmt.Sprintf("a successful return does not set the disabled flag to %v", wantVal))
 		}
 	}
 	// K4
